@@ -459,6 +459,7 @@ func (t *Trie) updateRefCount(h util.Uint256, key []byte, index uint32) int32 {
 		var err error
 		data, err = getFromStore(key, t.mode, t.Store)
 		if err == nil {
+			data = bytes.Clone(data)
 			cnt = int32(binary.LittleEndian.Uint32(data[len(data)-4:]))
 		}
 	}
@@ -529,7 +530,7 @@ func (t *Trie) getFromStore(h util.Uint256) (Node, error) {
 	}
 
 	if t.mode.RC() {
-		data = data[:len(data)-5]
+		data = data[: len(data)-5 : len(data)-5]
 		node := t.refcount[h]
 		if node != nil {
 			node.bytes = data
